@@ -3,17 +3,22 @@ Line-protocol driver for the C03 model (composition).  Parsing glue only; every 
 by the definitions of `Core/C03Compose.lean` the theorems of `Props/C03.lean` are about.
 
 table := T n row*            row  := cls nAnc anc* isAlign nInpl cls* nComp cls* strip
-cell  := F cls e₁…e_{(d+1)²} | C n ref* | L k
-stmt  := cb a b | ca a b | cbi a b | cai a b
+cell  := F d cls e₁…e_{(d+1)²} | C n ref* | L k | D n idx* | B n bit*   (D / B = WithDims with indices / a mask)
+stmt  := cb a b | ca a b | cbi a b | cai a b | fv a n v₁…v_n       (fv = compose_after_from_vector_inplace)
 
 ops:
-  prog d table S n cell* P m stmt*
+  prog table S n cell* P m stmt*
       → ok | res₁ | … | res_m # cell ; cell ; …          (the final store)
         res := r ref cell        non-in-place call: reference and cell of the result
              | i cell            accepted in-place call: the receiver afterwards
-             | e rejected|noMethod|badRef|fuel
+             | e rejected|noMethod|shape|notImplemented|badRef|fuel
   apply d table cls e₁…e_{(d+1)²} x₁…x_d   → ok y₁…y_d | undef
-  flat d fuel ref S n cell*                 → ok leaf ; leaf ; … | none       (leaf := F cls e… | L k)
+  flat fuel ref S n cell*                   → ok leaf ; leaf ; … | none       (leaf := F d cls e… | L k | D n idx*)
+  applyc fuel ref n x₁…x_n table S m cell*  → ok y… | undef | none   (the object at `ref` applied to a point;
+                                              opaque leaves are undefined; `none` = no denotation within the fuel)
+  dim fuel ref n S m cell*                  → ok k | err | none      (dimension calculus, opaque leaves d ↦ d)
+  reach fuel r a S m cell*                  → 1 | 0
+  fromvec d cls e₁…e_{(d+1)²} n v₁…v_n      → ok matrix | e kind
   decomp d uniform U(d²) V(d²) s(d) t(d)    → ok cell ; cell ; cell ; cell # product-matrix
   table E | table C                         → the expected / coded class table in wire format
 -/
@@ -42,27 +47,33 @@ def pTable : P ClassTable := do
   let t ← tok
   if t == "T" then pList pRow else failure
 
-def pCell (d : Nat) : P (Cell d) := do
+def pCell : P Cell := do
   let t ← tok
   match t with
   | "F" => do
+    let d ← pNat
     let c ← pCls
     let es ← pMany pRat ((d + 1) * (d + 1))
-    pure (.fam ⟨c, (Mat.ofList (d + 1) es).freeze⟩)
+    pure (.fam d ⟨c, (Mat.ofList (d + 1) es).freeze⟩)
   | "C" => do let ms ← pList pNat; pure (.chain ms)
-  | "L" => do let k ← pNat; pure (.leaf k)
+  | "L" => do let k ← pNat; pure (.leaf (.opq k))
+  | "D" => do let ds ← pList pNat; pure (.leaf (.withDims ds))
+  | "B" => do let bs ← pList pBool; pure (.leaf (.withMask bs))
   | _ => failure
 
 def pStmt : P Stmt := do
   let t ← tok
   let a ← pNat
-  let b ← pNat
   match t with
-  | "cb" => pure (.compose .before a b)
-  | "ca" => pure (.compose .after a b)
-  | "cbi" => pure (.inplace .before a b)
-  | "cai" => pure (.inplace .after a b)
-  | _ => failure
+  | "fv" => do let v ← pList pRat; pure (.fromVector a v)
+  | _ => do
+    let b ← pNat
+    match t with
+    | "cb" => pure (.compose .before a b)
+    | "ca" => pure (.compose .after a b)
+    | "cbi" => pure (.inplace .before a b)
+    | "cai" => pure (.inplace .after a b)
+    | _ => failure
 
 def pKw (s : String) : P Unit := do
   let t ← tok
@@ -70,17 +81,23 @@ def pKw (s : String) : P Unit := do
 
 def fmtM {n : Nat} (M : Mat n) : String := fmtMat M.toLists
 
-def fmtCell {d : Nat} : Cell d → String
-  | .fam t => s!"F {t.cls.name} {fmtM t.M}"
-  | .chain ms => s!"C {ms.length}" ++ String.join (ms.map fun m => s!" {m}")
-  | .leaf k => s!"L {k}"
-
-def fmtLeaf {d : Nat} : Leaf d → String
-  | .fam t => s!"F {t.cls.name} {fmtM t.M}"
+def fmtPlain : Plain → String
   | .opq k => s!"L {k}"
+  | .withDims ds => s!"D {ds.length}" ++ String.join (ds.map fun m => s!" {m}")
+  | .withMask bs => s!"B {bs.length}" ++ String.join (bs.map fun b => if b then " 1" else " 0")
+
+def fmtCell : Cell → String
+  | .fam d t => s!"F {d} {t.cls.name} {fmtM t.M}"
+  | .chain ms => s!"C {ms.length}" ++ String.join (ms.map fun m => s!" {m}")
+  | .leaf p => fmtPlain p
+
+def fmtLeaf : Leaf → String
+  | .fam d t => s!"F {d} {t.cls.name} {fmtM t.M}"
+  | .plain p => fmtPlain p
 
 def fmtErr : Err → String
-  | .rejected => "e rejected" | .noMethod => "e noMethod" | .badRef => "e badRef" | .fuel => "e fuel"
+  | .rejected => "e rejected" | .noMethod => "e noMethod" | .shape => "e shape"
+  | .notImplemented => "e notImplemented" | .badRef => "e badRef" | .fuel => "e fuel"
 
 def fmtRow (r : ClsRow) : String :=
   let l (cs : List HCls) := s!"{cs.length}" ++ String.join (cs.map fun c => " " ++ c.name)
@@ -91,21 +108,21 @@ def fmtTable (t : ClassTable) : String :=
 
 /-- run the statements one by one with `step` (a refused statement leaves the store as it is,
 exactly as `stepKeep`), reporting each result -/
-def runProg {d : Nat} (tbl : ClassTable) (st : Store d) (ss : List Stmt) : String :=
-  let (st', outs) := ss.foldl (fun (acc : Store d × List String) s =>
+def runProg (tbl : ClassTable) (st : Store) (ss : List Stmt) : String :=
+  let (st', outs) := ss.foldl (fun (acc : Store × List String) s =>
     let (st, outs) := acc
     match step tbl st s with
     | .error e => (st, fmtErr e :: outs)
-    | .ok (st', some r) => (st', s!"r {r} {fmtCell (st'.getD r (.leaf 0))}" :: outs)
+    | .ok (st', some r) => (st', s!"r {r} {fmtCell (st'.getD r (.leaf (.opq 0)))}" :: outs)
     | .ok (st', none) =>
-      let a := match s with | .inplace _ a _ => a | .compose _ a _ => a
-      (st', s!"i {fmtCell (st'.getD a (.leaf 0))}" :: outs)) (st, [])
+      let a := match s with | .inplace _ a _ => a | .compose _ a _ => a | .fromVector a _ => a
+      (st', s!"i {fmtCell (st'.getD a (.leaf (.opq 0)))}" :: outs)) (st, [])
   "ok" ++ String.join (outs.reverse.map fun o => " | " ++ o) ++ " # " ++ " ; ".intercalate (st'.map fmtCell)
 
-def opProg (d : Nat) : P String := do
+def opProg : P String := do
   let tbl ← pTable
   pKw "S"
-  let cells ← pList (pCell d)
+  let cells ← pList pCell
   pKw "P"
   let ss ← pList pStmt
   pure (runProg tbl cells ss)
@@ -120,14 +137,57 @@ def opApply (d : Nat) : P String := do
   | some y => pure ("ok " ++ fmtRats y.toList)
   | none => pure "undef"
 
-def opFlat (d : Nat) : P String := do
+def opFlat : P String := do
   let fuel ← pNat
   let r ← pNat
   pKw "S"
-  let cells ← pList (pCell d)
+  let cells ← pList pCell
   match flat cells fuel r with
   | some ls => pure ("ok " ++ " ; ".intercalate (ls.map fmtLeaf))
   | none => pure "none"
+
+def opApplyC : P String := do
+  let fuel ← pNat
+  let r ← pNat
+  let x ← pList pRat
+  let tbl ← pTable
+  pKw "S"
+  let cells ← pList pCell
+  match flat cells fuel r with
+  | none => pure "none"
+  | some ls =>
+    match applyLeaves tbl (fun _ _ => none) ls x with
+    | some y => pure ("ok " ++ fmtRats y)
+    | none => pure "undef"
+
+def opDim : P String := do
+  let fuel ← pNat
+  let r ← pNat
+  let n ← pNat
+  pKw "S"
+  let cells ← pList pCell
+  match flat cells fuel r with
+  | none => pure "none"
+  | some ls =>
+    match leavesDim (fun _ k => some k) ls n with
+    | some k => pure s!"ok {k}"
+    | none => pure "err"
+
+def opReach : P String := do
+  let fuel ← pNat
+  let r ← pNat
+  let a ← pNat
+  pKw "S"
+  let cells ← pList pCell
+  pure (if reaches cells fuel r a then "1" else "0")
+
+def opFromVec (d : Nat) : P String := do
+  let c ← pCls
+  let es ← pMany pRat ((d + 1) * (d + 1))
+  let v ← pList pRat
+  match fromVec c (Mat.ofList (d + 1) es).freeze v with
+  | .ok M => pure ("ok " ++ fmtM M)
+  | .error e => pure (fmtErr e)
 
 def opDecomp (d : Nat) : P String := do
   let uniform ← pBool
@@ -138,24 +198,28 @@ def opDecomp (d : Nat) : P String := do
   let ls := decomposeLeaves (Mat.ofList d u).freeze (Mat.ofList d v).freeze (Vec.ofList d s) uniform
     (Vec.ofList d t)
   -- folding `compose_before` over the list multiplies the later factors on the left
-  let prod : Mat (d + 1) := ls.foldl (fun acc l =>
-    match l with
-    | .fam h => Mat.mul h.M acc
-    | .opq _ => acc) (Mat.one (d + 1))
-  pure ("ok " ++ " ; ".intercalate (ls.map fmtLeaf) ++ " # " ++ fmtM prod)
+  let prod : Option (Mat (d + 1)) := ls.foldl (fun acc l =>
+    match acc, l with
+    | some acc, .fam d' h => if e : d' = d then some (Mat.mul (e ▸ h.M) acc) else none
+    | _, _ => none) (some (Mat.one (d + 1)))
+  pure ("ok " ++ " ; ".intercalate (ls.map fmtLeaf) ++ " # " ++ (match prod with | some p => fmtM p | none => "none"))
 
 def step (toks : List String) : String :=
   match toks with
   | ["table", "E"] => fmtTable expectedClassTable
   | ["table", "C"] => fmtTable codedClassTable
+  | "prog" :: rest => (runP opProg rest).getD "bad-op"
+  | "flat" :: rest => (runP opFlat rest).getD "bad-op"
+  | "applyc" :: rest => (runP opApplyC rest).getD "bad-op"
+  | "dim" :: rest => (runP opDim rest).getD "bad-op"
+  | "reach" :: rest => (runP opReach rest).getD "bad-op"
   | op :: ds :: rest =>
     match ds.toNat? with
     | none => "bad-op"
     | some d =>
       let p : Option (P String) := match op with
-        | "prog" => some (opProg d)
         | "apply" => some (opApply d)
-        | "flat" => some (opFlat d)
+        | "fromvec" => some (opFromVec d)
         | "decomp" => some (opDecomp d)
         | _ => none
       match p with
